@@ -155,17 +155,22 @@ def pushScalar (ext : Ext) (b : B) (x : SVal) : R B :=
         pure (.fixedSizeBinary p n (len + 1) v' (buf ++ bs) cur)
     | _ => notSupported s!"serialize_{x.kind}"
   | .dictionary p idx vals index =>
-    -- `serialize_str`, `serialize_unit_variant` and the scalars forwarded through `to_string` (as Utf8Builder does)
+    -- `serialize_str`, `serialize_unit_variant` and the scalars forwarded through `to_string` (as Utf8Builder does).
+    -- `self.values.serialize_str(v)?` and `idx.serialize(Mut(self.indices))` are calls of the CHILD builders' own
+    -- `serialize_str` / `serialize_u64`, each of which ends in `.ctx(self)` of that child: an error the value builder
+    -- raises (a string its type cannot take, its capacity) is annotated `{p}.value` / the value type, a key that does
+    -- not fit the key type `{p}.key` / the key type; `Error::ctx` annotates only an error without annotations
+    -- (error.rs), so the dictionary's own `.ctx(self)` (the `ctx b.ann` at the call sites of `pushScalar`) is a no-op then
     let key : Option String := scalarToString ext x
     match key with
     | some s =>
       match indexOfName index s with
       | some i => do
-        let idx' ← pushScalar ext idx (.int .u64 i)
+        let idx' ← ctx idx.ann (pushScalar ext idx (.int .u64 i))
         pure (.dictionary p idx' vals index)
       | none => do
-        let vals' ← pushScalar ext vals (.str s)
-        let idx' ← pushScalar ext idx (.int .u64 index.length)
+        let vals' ← ctx vals.ann (pushScalar ext vals (.str s))
+        let idx' ← ctx idx.ann (pushScalar ext idx (.int .u64 index.length))
         pure (.dictionary p idx' vals' (index ++ [s]))
     | none => notSupported s!"serialize_{x.kind}"
   | .list _ _ _ _ _ _ | .fixedSizeList _ _ _ _ _ _ _ | .map _ _ _ _ _ _ | .struct _ _ _ _ _ _ _
